@@ -387,8 +387,26 @@ def h_simulate(env, opts, n, projective=False):
             e_opt = s.simulate()
             st = R.run_gates(s.optimal_circuit._gates, n)
             e_again = s.energy_estimation(list(th))
+            # after the optimisation the caller evaluates ANOTHER point and then asks for an operator without naming parameters:
+            # the documented default is the ansatz' CURRENT parameters, i.e. the point just evaluated
+            zeros = [0.0] * k
+            e_zero = s.energy_estimation(list(zeros))
+            from tangelo.toolboxes.operators import QubitOperator
+            uop = QubitOperator()
+            uop.terms[((0, "Z"),)] = 0.5
+            uop.terms[((0, "Y"), (1, "X"))] = 0.25 if n >= 2 else 0.0
+            uop.terms[((0, "X"), (n - 1, "Z"))] = -0.75
+            v_default = s.operator_expectation(uop)
+            full = s.ansatz.circuit if s.ref_state is None else s.reference_circuit + s.ansatz.circuit
+            st_zero = R.run_gates(list(full._gates), n)
+            v_named = s.operator_expectation(uop, list(zeros))
     finally:
         c02._restore()
+    if not projective:
+        env.check_eq(v_default, v_named, "after simulate() and energy_estimation(x): operator_expectation(op) without parameters == operator_expectation(op, x)")
+        env.check_eq(v_default, R.expectation(st_zero, n, dict(uop.terms)),
+                     "after simulate() and energy_estimation(x): operator_expectation(op) without parameters == <op> of the state just evaluated")
+        env.check_eq(e_zero, R.expectation(st_zero, n, dict(s.qubit_hamiltonian.terms)), "energy_estimation(x) after simulate() == <H> at x")
     env.check_eq(e_opt, R.expectation(st, n, dict(s.qubit_hamiltonian.terms)), "simulate(): optimal_energy == <H> of the state prepared by optimal_circuit")
     env.check_eq(e_opt, e_again, "simulate(): optimal_energy == energy_estimation(optimal_var_params)")
     env.check_vec_eq(list(s.optimal_var_params), list(th), "simulate(): optimal_var_params are the optimiser's")
